@@ -1,10 +1,11 @@
 #!/bin/bash
-# usage: eval_mutant.sh <name> <prop> <check-ids...>
+# usage: [PFX=mutb_ SUFFIX=b] eval_mutant.sh <name> <prop> <check-ids...>
 # Confirms a sub-agent's mutant in its scratch worktree (/tmp/mut_<name>, outputs in /tmp/mut_<name>_out),
 # runs the registered checks against it on /repo (apply, check, revert), and files it under /verif/seeded/<name>/.
 name="$1"; prop="$2"; shift 2
-wt=/tmp/mut_$name; out=/tmp/mut_${name}_out
-dest=/verif/seeded/$name
+pfx=${PFX:-mut_}; suffix=${SUFFIX:-}
+wt=/tmp/$pfx$name; out=/tmp/$pfx${name}_out
+dest=/verif/seeded/$name$suffix
 mkdir -p $dest
 cp $out/patch.diff $dest/patch.diff
 cp $out/demo_*.rs $dest/ 2>/dev/null
@@ -37,5 +38,6 @@ import json,sys
 name,prop,rc,rm,suite,res=sys.argv[1:7]
 meta={"breaks_property":prop,"needs_to_manifest":"see README.md","confirmed":{"demo_on_unchanged_tree":rc,"demo_with_change":rm,"existing_suite_with_change":suite},
       "our_checks":res,"how":"tools/eval_mutant.sh: demo run with and without the patch in a scratch worktree, full suite with the patch, then git -C /repo apply, ./check <ids>, git -C /repo checkout -- ."}
-json.dump(meta,open(f"/verif/seeded/{name}/meta.json","w"),indent=1)
+import os
+json.dump(meta,open(f"/verif/seeded/{name}{os.environ.get('SUFFIX','')}/meta.json","w"),indent=1)
 PY
